@@ -31,7 +31,7 @@ ASSUMPTIONS = [
     "the histories, not exhibited by the model",
     "handlers are assumed to return (CFinish is an internal step): a handler that never returns keeps `stopped` "
     "pending for ever, by design",
-    "not modelled: ping/pong and inactivity close, batches, "
+    "not modelled: inactivity close (pings are enabled in the family ws-ping-enabled, where the model treats them as no-ops: pongs arriving while calls execute or while the server stops must change nothing), batches, "
     "subscription notifications (an open subscription owns no stop/pending token), HTTP/2, partially read requests, "
     "the WS handshake seam (a WS connection starts in its reader loop)",
     "calls that the reader had not yet taken when the stop signal was observed are NOT run (WS: read and discarded "
@@ -398,6 +398,22 @@ def gen_cases(ctx):
             if " Z" in t and any(o == "Z" for o in t.split()):
                 cases.append((t, "parked-wait"))
                 break
+    # WebSocket pings enabled (interval 20 ms; a pause is 25 ms): pongs keep arriving while calls execute and while the
+    # server is stopping; they must change nothing (the model ignores `I`)
+    def with_ping(t):
+        ops = []
+        for o in t.split():
+            ops += [o, "p"] if o == "p" else [o]
+        return " ".join(["I20"] + ops)
+    pinged = [with_ping(t) for t in fixed if "cw" in t.split() and "p" in t.split()]
+    pinged += ["I20 cw W s0 a0 S p p p p r0 y0 Z", "I20 cw ch W s0 s1 a0 a1 S p p p r1 y1 p p r0 y0 Z", "I10 cw u0 W s0 a0 S p p p p r0 Z",
+               "I20 B1 cw W s0 s0 s0 a0 a1 a2 S p p p A Z"]
+    for _ in range(ctx.scale(60, 1500)):
+        t = gen_main(rng)
+        if "cw" in t.split() and "S" in t.split() and "p" in t.split():
+            pinged.append(with_ping(t))
+    for t in pinged:
+        cases.append((t, "ws-ping-enabled"))
     seen, out = set(), []
     for t, tag in cases:
         if t not in seen:
